@@ -16,9 +16,7 @@
    rooted tree t, gamma t its density. *)
 From Coq Require Import List ZArith QArith Bool Lia.
 Import ListNotations.
-From QV Require Import Model.C10_trees Model.C10 Proofs.C10_trees Proofs.C10
-  Proofs.C10_tab_small Proofs.C10_tab_vern7 Proofs.C10_tab_vern9
-  Gen.C10_tab_euler Gen.C10_tab_rk4 Gen.C10_tab_vern7 Gen.C10_tab_vern9.
+From QV Require Import Model.C10_trees Model.C10 Proofs.C10_trees Proofs.C10.
 
 (* ------------------------------------------------------------ kernel --- *)
 
@@ -156,7 +154,7 @@ Print Assumptions C10_linear_dense_output_is_kernel_polynomial.
 (* Headline form of local exactness: for every tableau, dimension, step size
    and linear generator,  y_front = sum_j p_j (dt L)^j y_prev  where p is the
    symbolic run of the kernel at step size 1 - the list whose entries
-   C10_taylor_coefficients (below) shows to be 1/j! up to 2^-40 for j <= order
+   C10_taylor_coefficients (Props/C10_tab.v) shows to be 1/j! up to 2^-40 for j <= order
    when the tableau is one of those in the source.  Step size and generator
    enter only through dt*L. *)
 Theorem C10_linear_step_taylor_form :
@@ -199,110 +197,6 @@ Example C10_nonvacuous_linear :
                   (fun _ => pshift Z 0%Z) tb 0%Z [1%Z] 2%Z = [1; 8; 24]%Z
   /\ peval Z Z Z.add Z.mul 0%Z (fun v => (3 * v)%Z) 5%Z [1; 8; 24]%Z = 1205%Z.
 Proof. vm_compute. repeat split. Qed.
-
-(* --------------------------------------------------------- tableaux --- *)
-
-(* every number of the four tableaux is a dyadic rational that q2dy
-   converts without loss; shapes as _init_coeff requires; a_ij = 0 for
-   j >= i (the kernel reads only a[i, :i]); c_i = sum_j a_ij within 2^-44;
-   the advertised orders are 1, 4, 7, 9 *)
-Theorem C10_tableaux_wellformed :
-  all_dyadic_m euler_a && all_dyadic_v euler_b && all_dyadic_v euler_c &&
-  all_dyadic_m rk4_a && all_dyadic_v rk4_b && all_dyadic_v rk4_c = true /\
-  all_dyadic_m vern7_a && all_dyadic_v vern7_b && all_dyadic_v vern7_c &&
-  all_dyadic_v vern7_e && all_dyadic_m vern7_bi = true /\
-  all_dyadic_m vern9_a && all_dyadic_v vern9_b && all_dyadic_v vern9_c &&
-  all_dyadic_v vern9_e && all_dyadic_m vern9_bi = true /\
-  shapes_ok eu_a eu_b eu_c && strictly_lower eu_a && rowsum_ok 50 eu_a eu_c &&
-  shapes_ok r4_a r4_b r4_c && strictly_lower r4_a && rowsum_ok 50 r4_a r4_c = true /\
-  Nat.eqb euler_order 1 && Nat.eqb rk4_order 4 = true /\
-  Nat.eqb vern7_order 7 && shapes_ok v7_a v7_b v7_c && strictly_lower v7_a &&
-  rowsum_ok 44 v7_a v7_c && Nat.eqb (length v7_e) (length v7_b) &&
-  Nat.eqb (length v7_bi) (length v7_c) &&
-  forallb (fun r => Nat.eqb (length r) 7) v7_bi = true /\
-  Nat.eqb vern9_order 9 && shapes_ok v9_a v9_b v9_c && strictly_lower v9_a &&
-  rowsum_ok 44 v9_a v9_c && Nat.eqb (length v9_e) (length v9_b) &&
-  Nat.eqb (length v9_bi) (length v9_c) &&
-  forallb (fun r => Nat.eqb (length r) 9) v9_bi = true.
-Proof.
-  split; [exact small_dyadic|]. split; [exact vern7_dyadic|]. split; [exact vern9_dyadic|].
-  split; [exact small_struct|]. split; [exact small_orders|]. split; [exact vern7_struct|].
-  exact vern9_struct.
-Qed.
-Print Assumptions C10_tableaux_wellformed.
-
-(* order conditions: for EVERY rooted tree t (all values of the inductive
-   type; plane trees cover all rooted trees) of order <= p,
-   | sum_i b_i Phi_i(t) * gamma(t) - 1 | <= 2^-40 *)
-Theorem C10_euler_order_conditions :
-  forall t, (order t <= 1)%nat -> dclose 50 (ddot eu_b (Phi eu_a t)) (gamma t) 1 = true.
-Proof. exact (order_check_all eu_a 50 eu_b 1 euler_order_check). Qed.
-Print Assumptions C10_euler_order_conditions.
-
-Theorem C10_rk4_order_conditions :
-  forall t, (order t <= 4)%nat -> dclose 50 (ddot r4_b (Phi r4_a t)) (gamma t) 1 = true.
-Proof. exact (order_check_all r4_a 50 r4_b 4 rk4_order_check). Qed.
-Print Assumptions C10_rk4_order_conditions.
-
-(* vern7: b to order 7, the embedded weights b - e to order 6, and the
-   dense-output polynomial coefficient by coefficient in theta to order 6
-   (column j of bi multiplies theta^(j+1); tolerance 2^-30 because the
-   entries of bi reach 10^3) *)
-Theorem C10_vern7_order_conditions :
-  forall t, (order t <= 7)%nat ->
-    dclose 40 (ddot v7_b (Phi v7_a t)) (gamma t) 1 = true /\
-    ((order t <= 6)%nat -> dclose 40 (ddot v7_bh (Phi v7_a t)) (gamma t) 1 = true) /\
-    ((order t <= 6)%nat -> forall j, (j < 7)%nat ->
-       dclose 30 (ddot (column j v7_bi) (Phi v7_a t)) (gamma t)
-              (dense_target j (order t)) = true).
-Proof. exact (full_check_all v7_a 40 30 v7_b v7_bh v7_bi 7 7 6 6 vern7_full). Qed.
-Print Assumptions C10_vern7_order_conditions.
-
-(* vern9: b to order 9, b - e to order 8, dense output to order 8 *)
-Theorem C10_vern9_order_conditions :
-  forall t, (order t <= 9)%nat ->
-    dclose 40 (ddot v9_b (Phi v9_a t)) (gamma t) 1 = true /\
-    ((order t <= 8)%nat -> dclose 40 (ddot v9_bh (Phi v9_a t)) (gamma t) 1 = true) /\
-    ((order t <= 8)%nat -> forall j, (j < 9)%nat ->
-       dclose 30 (ddot (column j v9_bi) (Phi v9_a t)) (gamma t)
-              (dense_target j (order t)) = true).
-Proof. exact (full_check_all v9_a 40 30 v9_b v9_bh v9_bi 9 9 8 8 vern9_full). Qed.
-Print Assumptions C10_vern9_order_conditions.
-
-(* the checks are not vacuous: no method satisfies the conditions one
-   order higher *)
-Example C10_orders_are_sharp :
-  order_check eu_a 1 eu_b 2 = false /\ order_check r4_a 7 r4_b 5 = false /\
-  taylor_close 40 done 8 (stab_poly v7_tb done) = false /\
-  taylor_close 40 done 10 (stab_poly v9_tb done) = false.
-Proof.
-  split; [exact euler_not_order2|]. split; [exact rk4_not_order5|].
-  split; [exact vern7_taylor_sharp|exact vern9_taylor_sharp].
-Qed.
-
-(* local exactness for y' = L y: the polynomial of
-   C10_linear_step_is_kernel_polynomial, computed by the kernel model itself
-   on the real tableaux with dt = 1 (so x stands for dt*L), has the Taylor
-   coefficients of exp(x): |p_j * j! - 1| <= 2^-40 for j <= order.
-   Dense output at theta in {1/2, 1/4, 3/4, 1}: coefficients of
-   exp(theta x) through x^(q-1), within 2^-30; at theta = 1 the Horner
-   factors of _interpolate_step reproduce b (and 0 on the extra stages). *)
-Theorem C10_taylor_coefficients :
-  taylor_close 50 done 1 (stab_poly eu_tb done) = true /\
-  taylor_close 50 done 4 (stab_poly r4_tb done) = true /\
-  taylor_close 40 done 7 (stab_poly v7_tb done) = true /\
-  taylor_close 40 done 9 (stab_poly v9_tb done) = true /\
-  forallb (fun tau => taylor_close 30 tau 6 (dense_poly v7_tb done tau))
-          [(1, 1); (1, 2); (3, 2); (1, 0)]%Z = true /\
-  forallb (fun tau => taylor_close 30 tau 8 (dense_poly v9_tb done tau))
-          [(1, 1); (1, 2); (3, 2); (1, 0)]%Z = true /\
-  theta1_ok 36 v7_tb = true /\ theta1_ok 36 v9_tb = true.
-Proof.
-  split; [exact euler_taylor|]. split; [exact rk4_taylor|]. split; [exact vern7_taylor|].
-  split; [exact vern9_taylor|]. split; [exact vern7_dense_taylor|].
-  split; [exact vern9_dense_taylor|]. split; [exact vern7_theta1|exact vern9_theta1].
-Qed.
-Print Assumptions C10_taylor_coefficients.
 
 (* ---------------------------------------------------------- packing --- *)
 
